@@ -239,14 +239,15 @@ def _one_result(ctx, f, name, ret, call, defst):
 def _renamings(ctx):
     f = ctx.method("Tensor", "_splitGeneric")
     src = " ".join(text(s) for s in f.body).replace(" ", "")
-    if "rank_ids[depth]=f'{id}.1'" in src and "rank_ids.insert(depth+1,f'{id}.0')" in src:
+    e1 = pat.msearch(src, "$R[$D]=f'{id}.1'")
+    if e1 and pat.msearch(src, "$R.insert($D+1,f'{id}.0')", e1):
         ctx.ok("C14.R1", f, f.node, "split renames X -> X.1, X.0",
                text_="_splitGeneric renaming")
     else:
         ctx.bad("C14.R1", f, f.node, "a split no longer renames rank X to X.1 "
                 "(upper) and X.0 (lower, inserted right after)",
                 text_="_splitGeneric renaming")
-    if "shape.insert(depth+1,shape[depth])" in src:
+    if e1 and pat.msearch(src, "$S.insert($D+1,$S[$D])", {"D": e1["D"]}):
         ctx.ok("C14.R1", f, f.node, "split duplicates the split rank's shape",
                text_="_splitGeneric shape")
     else:
@@ -254,7 +255,9 @@ def _renamings(ctx):
                 "rank's shape for the new lower rank", text_="_splitGeneric shape")
     f = ctx.method("Tensor", "swapRanks")
     src = " ".join(text(s) for s in f.body).replace(" ", "")
-    if "rank_ids[depth]=rank_ids[depth+1]" in src and "rank_ids[depth+1]=id" in src:
+    e1 = pat.msearch(src, "$I=$R[depth]")
+    if e1 and pat.msearch(src, "$R[depth]=$R[depth+1]", e1) and \
+            pat.msearch(src, "$R[depth+1]=$I", e1):
         ctx.ok("C14.R1", f, f.node, "swap exchanges the two adjacent rank ids",
                text_="swapRanks renaming")
     else:
@@ -273,7 +276,7 @@ LAZY = {
     "core/iterators.py:__sub__": ("self", ["self.getActive()"], "self.getDefault()"),
     "core/iterators.py:intersection": ("args[0]", ["args[0].getActive()"], None),
     "core/iterators.py:union": ("args[0]", ["args[0].getActive()"],
-                                "tuple(['']+[arg.getDefault()forarginargs])"),
+                                "tuple(['']+[$A.getDefault()for$Ainargs])"),
     "core/iterators.py:coiterRangeShape": ("fibers[0]", ["(start,end)"], None),
     "core/iterators.py:coiterRangeShapeRef": ("fibers[0]", ["(start,end)"], None),
     "core/fiber.py:Fiber.prune": ("self", ["self.getActive()"], "self.getDefault()"),
@@ -313,8 +316,9 @@ def lazy_builders(ctx):
         if default is not None:
             ds = [x for x in pat.calls(f, attr="_setDefault")
                   if text(x.func.value) == R]
-            if ds and ds[0].args and text(ds[0].args[0]).replace(" ", "").replace(
-                    '"', "'") == default:
+            if ds and ds[0].args and pat.msearch(
+                    text(ds[0].args[0]).replace(" ", "").replace('"', "'"),
+                    default, full=True) is not None:
                 ctx.ok("C14.R2", f, ds[0], "default = %s" % default)
             else:
                 ctx.bad("C14.R2", f, c, "%s's lazy result gets default `%s`; "
@@ -328,14 +332,19 @@ def lazy_builders(ctx):
     ctx.require(len(calls) == 1, "C14.R2: project's fromIterator call not found")
     c = calls[0]
     n += 1
+    st = enclosing_stmt(c)
+    R = text(st.targets[0]) if isinstance(st, ast.Assign) else "result"
     ar = pat.kwarg(c, "active_range")
-    if ar is not None and text(ar).replace(" ", "") == "(min_,max_)":
+    e0 = pat.msearch(text(ar), "($L,$H)", full=True) if ar is not None else None
+    if e0 is not None:
         src = " ".join(text(s) for s in f.body).replace(" ", "")
-        iv = "min_,max_=interval" in src or "(min_,max_)=interval" in src
-        tr = "start=trans_fn(self.getActive()[0])" in src and \
-            "end=trans_fn(Fiber._transCoord(self.getActive()[1],lambdac:c-1))" in src \
-            and "min_=min(start,end)" in src and \
-            "max_=Fiber._transCoord(max(start,end),lambdac:c+1)" in src
+        iv = pat.msearch(src, "$L,$H=interval", e0) is not None or \
+            pat.msearch(src, "($L,$H)=interval", e0) is not None
+        e1 = pat.msearch(src, "$S=trans_fn(self.getActive()[0])", e0)
+        e1 = e1 and pat.msearch(src, "$E=trans_fn(Fiber._transCoord("
+                                "self.getActive()[1],lambdac:c-1))", e1)
+        tr = bool(e1) and pat.msearch(src, "$L=min($S,$E)", e1) is not None and \
+            pat.msearch(src, "$H=Fiber._transCoord(max($S,$E),lambdac:c+1)", e1) is not None
         if iv and tr:
             ctx.ok("C14.R2", f, c, "active range = requested interval, else the "
                    "transformed range (min/max, +1 on the open end)")
@@ -346,14 +355,14 @@ def lazy_builders(ctx):
     else:
         ctx.bad("C14.R2", f, c, "project builds its result with active range "
                 "`%s`" % text(ar), text_="project active range")
-    ds = [x for x in pat.calls(f, attr="_setDefault") if text(x.func.value) == "result"]
+    ds = [x for x in pat.calls(f, attr="_setDefault") if text(x.func.value) == R]
     if ds and ds[0].args and text(ds[0].args[0]).replace(" ", "") == "self.getDefault()":
         ctx.ok("C14.R2", f, ds[0], "default of the projected fiber")
     else:
         ctx.bad("C14.R2", f, c, "project's result does not carry the fiber's "
                 "default", text_="project default")
     ids = [x for x in pat.calls(f, attr="setId")
-           if text(x.func.value).replace(" ", "") == "result.getRankAttrs()"]
+           if text(x.func.value).replace(" ", "") == "%s.getRankAttrs()" % R]
     if ids and ids[0].args and text(ids[0].args[0]) == "rank_id" and any(
             (text(t).replace(" ", ""), pol) == ("rank_idisnotNone", True)
             for t, pol in guards(enclosing_stmt(ids[0]))):
